@@ -227,7 +227,7 @@ def gen_sim(rng, algo=None, gen='G-sim', small=True):
         duration = int(duration)
     npools = 2 if algo == 'priority-pool' else rng.choice([1, 1, 2, 3, 4])
     cpu = rng.choice([1, 2, 4, 8, 10, 16, 32])
-    ram = rng.choice([1, 2, 4, 8, 16, 20, 32, 64, 100])
+    ram = rng.choice([1, 2, 4, 8, 16, 20, 32, 64, 100, 0.5, 2.5, 12.5, 62.5])      # sub-GB and fractional pool sizes too
     over = 1 if algo == 'overbook' else 0
     multi = 1 if algo == 'priority-pool' else rng.choice([0, 1, 1])
     pipes, segs, arrivals = [], [], []
@@ -306,8 +306,8 @@ def gen_saturate(rng, algo, gen='G-sim-saturate'):
     tps = rng.choice([1, 2, 10])
     npools = 2 if algo == 'priority-pool' else rng.choice([1, 2, 3])
     cpu = rng.choice([5, 6, 7, 8, 10, 12, 16, 19])
-    ram = rng.choice([40, 100, 200])
-    share = ram // 10
+    ram = rng.choice([40, 100, 200, 12.5, 62.5])
+    share = ram / 10.0 if ram != int(ram) else ram // 10
     nticks = rng.choice([40, 80, 150])
     pipes, segs, arrivals = [], [], []
     n = rng.randint(npools * cpu, 3 * npools * cpu)
